@@ -374,6 +374,10 @@ type c02E2EIn struct {
 	Comps    []int   `json:"compressions"`
 	Cases    []c02TC `json:"cases"`
 	NoRerun  bool    `json:"noRerun,omitempty"` // failing permutations are not re-run alone (ops whose failures are 20 s time-outs)
+	// Trace: the runner's --trace (Flags.HTTPTrace): the in-process reference peers run inside the
+	// HTTP tracing wrappers (tracer.TracingHandler around the reference server's checks,
+	// TracingRoundTripper in the reference client).  Tracing is an observer: no verdict may change.
+	Trace bool `json:"trace,omitempty"`
 }
 type c02PermOut struct {
 	Name    string     `json:"name"`
@@ -446,7 +450,7 @@ func c02E2E(c *gen.Ctx, in c02E2EIn) c02E2EOut {
 	os.WriteFile(cfgPath, []byte(cfg), 0o644)
 	capPath := filepath.Join(dir, "responses.bin")
 	self, _ := os.Executable()
-	flags := &cc.Flags{ConfigFile: cfgPath, TestFiles: []string{suitePath}, MaxServers: 4, Parallelism: 8, ServerBind: "127.0.0.1"}
+	flags := &cc.Flags{ConfigFile: cfgPath, TestFiles: []string{suitePath}, MaxServers: 4, Parallelism: 8, ServerBind: "127.0.0.1", HTTPTrace: in.Trace}
 	mode := conformancev1.TestSuite_TEST_MODE_CLIENT
 	clientGRPC, serverGRPC := false, true
 	if in.Mode == "server" {
@@ -820,6 +824,8 @@ func runC02(c *gen.Ctx) error {
 		if c.Thorough() && k%5 == 4 {
 			in.Comps = allComps
 		}
+		// every third run with the runner's --trace (k = 1 client, 4 client, 7 both, 10 server, 13 grpcclient ...)
+		in.Trace = k%3 == 1
 		// the first run carries the fixed shape family, the others random cases
 		if k == 0 {
 			for _, sh := range [][3]int{{1, 0, 1}, {2, 0, 0}, {3, 0, 0}, {1, 3, 0}, {2, 3, 1}, {3, 1, 0}, {3, 3, 1}, {2, 1, 1}} {
